@@ -240,6 +240,16 @@ def entries(level='quick'):
     E.append(Entry('rqCDF/tails3/K4[2]/mins', 'cdf',
                    (lambda: T.PiecewiseRationalQuadraticCDF([2], num_bins=4, tails='linear', tail_bound=3.0, min_bin_width=0.03, min_bin_height=0.08, min_derivative=0.05)),
                    [2], spline=_spl('rq', 'linear', 4, 3.0)))
+    # ... and on one-dimensional events (where a flow's total mass can be integrated)
+    E.append(Entry('quadCDF/tails3/K4[1]/mins', 'cdf',
+                   (lambda: T.PiecewiseQuadraticCDF([1], num_bins=4, tails='linear', tail_bound=3.0, min_bin_width=0.02, min_bin_height=0.08)),
+                   [1], spline=_spl('quad', 'linear', 4, 3.0)))
+    E.append(Entry('cubicCDF/tails3/K4[1]/mins', 'cdf',
+                   (lambda: T.PiecewiseCubicCDF([1], num_bins=4, tails='linear', tail_bound=3.0, min_bin_width=0.03, min_bin_height=0.08)),
+                   [1], spline=_spl('cubic', 'linear', 4, 3.0)))
+    E.append(Entry('rqCDF/tails3/K4[1]/mins', 'cdf',
+                   (lambda: T.PiecewiseRationalQuadraticCDF([1], num_bins=4, tails='linear', tail_bound=3.0, min_bin_width=0.03, min_bin_height=0.08, min_derivative=0.05)),
+                   [1], spline=_spl('rq', 'linear', 4, 3.0)))
     # MADE conditioners with batch norm and dropout (feed-forward and residual blocks)
     for resid in (True, False):
         tag = 'F3/ctxNone/%s+bn+do' % ('res' if resid else 'ff')
